@@ -140,6 +140,11 @@ def declare_pipes(spec):
              "ref_id(vlist_of(%s)[1]) != 0")
     spec.pred('pipes_wf', [('r', Ref('Redirector'))],
               "forall(INT, lambda pfd: implies(pfd in r.pipes, %s))" % (ENTRY % (('r.pipes[pfd]',) * 5)))
+    spec.add(Contract('circus.stream.redirector:Redirector.get_process_pipes', kind='generator',
+                      params={'process': Ref('Process')},
+                      note='plain generator: inlined at its call sites (real body executed, yielded pairs collected)'))
+    spec.add(Contract('$method.fileno', params={'self': VAL}, ret=INT, trusted=True, modifies=[],
+                      raises={'ValueError': []}, note='file.fileno(): the descriptor, or ValueError when already closed'))
     OTHERS_ACTIVE = ("forall(INT, lambda g: implies(g in old(self._active), g in self._active))")
     _maybe(spec, Contract(
         'circus.stream.redirector:Redirector.start', ret=INT,
@@ -153,3 +158,31 @@ def declare_pipes(spec):
             "forall(INT, lambda j: implies(0 <= j and j < loop_i, loop_keys[j] in self._active))",
             "forall(INT, lambda j: implies(0 <= j and j < loop_n, loop_keys[j] in self.pipes))",
         ], fingerprint='for:self.pipes.items()', modifies=['self._active', 'L_handlers', 'new:Handler'])}))
+
+    # on spawn: the new worker's pipes are registered under their fd, replacing a stale handler for a reused number
+    _maybe(spec, Contract(
+        'circus.stream.redirector:Redirector.add_redirections', params={'process': Ref('Process')},
+        # a piped channel of a started worker is a file object (Popen(stdout=PIPE) => worker.stdout is not None)
+        requires=['rd_wf(self)', 'not isnull(process)', 'implies(process.pipe_stdout, is_ref(process.stdout)) and implies(process.pipe_stderr, is_ref(process.stderr))'],
+        ensures=['rd_wf(self)', 'process.redirected',
+                 ('new-generation-gets-its-own-handler',
+                  "implies(self.running, forall(INT, lambda g: implies((g in self._active) and "
+                  "(not (g in old(self._active)) or self._active[g] != old(self._active)[g]), "
+                  "self._active[g].process == process)))"),
+                 ('no-stale-handler-on-a-reused-fd',
+                  "forall(INT, lambda g: implies((g in self.pipes) and (not (g in old(self.pipes)) or "
+                  "not same(self.pipes[g], old(self.pipes)[g])), implies(g in self._active, self._active[g].process == process)))"),
+                 ('watched-when-running',
+                  "implies(self.running, forall(INT, lambda g: implies((g in self.pipes) and (not (g in old(self.pipes)) or "
+                  "not same(self.pipes[g], old(self.pipes)[g])), g in self._active)))"),
+                 "forall(INT, lambda g: implies(g in old(self.pipes), g in self.pipes))"],
+        raises={'ValueError': ['rd_wf(self)']},
+        modifies=['self._active', 'self.pipes', 'L_handlers', 'new:Handler', 'process.redirected', '$val']))
+    _maybe(spec, Contract(
+        'circus.stream.redirector:Redirector.remove_redirections', params={'process': Ref('Process')},
+        requires=['rd_wf(self)', 'not isnull(process)', 'implies(process.pipe_stdout, is_ref(process.stdout)) and implies(process.pipe_stderr, is_ref(process.stderr))'],
+        ensures=['rd_wf(self)', 'not process.redirected',
+                 "forall(INT, lambda g: implies(g in self.pipes, g in old(self.pipes)))",
+                 "forall(INT, lambda g: implies(g in self._active, (g in old(self._active)) and "
+                 "self._active[g] == old(self._active)[g]))"],
+        modifies=['self._active', 'self.pipes', 'L_handlers', 'process.redirected']))
